@@ -25,6 +25,22 @@ CLAIMS = {
              'finder that returns a root; existence+uniqueness of the root for Frank.',
         note='brentq is an external hypothesis; bracket validity is partial and is a recorded finding for Gumbel',
         tech='Lean 4 proof over a translator-regenerated model + correspondence with the real percent_point', ref='5 C08'),
+    'C09': dict(
+        text='Lean 4 theorems about Bivariate.sample regenerated from the source: tau guard before any draw, shape (n rows, '
+             'second column is the first draw), Clayton rows are the conditional inverse of the draws, Frank Rosenblatt '
+             'identity (integral of h = C) with uniform margins as boundary cases; tied by replaying the recorded '
+             'np.random.uniform draws through the generated model.',
+        note='uniformity/independence of MT19937 is trusted; value of Kendall tau of C_theta not proved; Clayton/Gumbel '
+             'Rosenblatt identity in improper-integral form; statistical bands (<=1e-9 false alarm) only in the search',
+        tech='Lean 4 proof over a translator-regenerated model + deterministic replay of recorded RNG draws', ref='5 C09'),
+    'C10': dict(
+        text='Lean 4 theorems: Clayton/Gumbel tau<->theta round trips on the generated compute_theta, acceptance iff '
+             'admissible for each family, refusals leave no usable model, accepted fits are usable, state written at each '
+             'refusal point, Frank residual = tau(theta)-tau, tau-b bounds/symmetry/monotone data/invariance on an '
+             'executable tau-b; tied by running the fit model at Float on the quantities the real fit derives from data.',
+        note='Frank solver (least_squares, quad) and scipy kendalltau are external hypotheses, cross-checked every run; '
+             'Frank near tau=0 is a recorded finding',
+        tech='Lean 4 proof over generated calibrations + hand model of fit with correspondence', ref='5 C10'),
 }
 
 
